@@ -286,11 +286,16 @@ UnaryChecks(cfg, pre, post, ln) ==
          \cup { Chk("C02", "shrink_to_fit:capacity=max(size,N)", ln.out = "ok" /\ ~cfg.vector,
                            y.cap = Max(sz, NOf(cfg, c))) }
     [] op = "at" ->
-         { Chk("C01", "at:value", a[1] < sz, ln.out = "ok" /\ ln.ret = vs[a[1] + 1][1]),
-           Chk("C01", "at:out_of_range", a[1] >= sz, ln.out = "out_of_range"),
+         \* a[2] (optional) # 0: an index far beyond any size (SIZE_MAX - a[1], the sign bit of the difference type + a[1],
+         \* SIZE_MAX / 2 - a[1]); both the const and the non-const overload are called ("ok" with ret -7 when they disagree)
+         LET far == Len(a) >= 2 /\ a[2] # 0 IN
+         { Chk("C01", "at:value", ~far /\ a[1] < sz, ln.out = "ok" /\ ln.ret = vs[a[1] + 1][1]),
+           Chk("C01", "at:out_of_range", far \/ a[1] >= sz, ln.out = "out_of_range"),
            Chk("C01", "at:no-effect", TRUE, y = x /\ post.blocks = pre.blocks /\ NoEvents(ln.evs)) }
     [] op = "erase_val" ->
-         LET P(v) == ElemEq(cfg.flt, v[1], a[1]) IN
+         \* a[2] (optional): 1 = the value is of another type and equal to the element value a[1]; 2 = of another type,
+         \* equal to NO element, although it converts to the element value a[1] (std::erase compares element == value)
+         LET P(v) == ~(Len(a) >= 2 /\ a[2] = 2) /\ ElemEq(cfg.flt, v[1], a[1]) IN
          MutateChecks(cfg, pre, post, ln, c, RemoveIf(vs, P), 0, Opt(FALSE, FALSE, TRUE, FALSE, TRUE, 0, -1, TRUE))
          \cup { Chk("C16", "erase:removes-exactly-the-matches", ln.out = "ok",
                     y.e = RemoveIf(vs, P) /\ ln.ret = CountIf(vs, P)) }
